@@ -32,6 +32,7 @@ type cnStep struct {
 type cnCase struct {
 	Sched []string `json:"sched"`
 }
+
 func installHook() {
 	diam.SetVerifHook(func(point string, obj interface{}, args ...interface{}) {
 		l := logFor(obj)
@@ -49,15 +50,15 @@ func installHook() {
 type cnLine struct {
 	Events     []cnEvent `json:"events"`
 	Conform    bool      `json:"conform"`
-	Ev         string   `json:"ev"`
-	ID         int      `json:"id"`
-	Via        string   `json:"via"`
-	Sched      []string `json:"sched"`
-	Steps      []cnStep `json:"steps"`
-	InOrder    bool     `json:"inorder"`
-	Goroutines int      `json:"goroutines"`
-	Dump       string   `json:"dump"`
-	Note       string   `json:"note"`
+	Ev         string    `json:"ev"`
+	ID         int       `json:"id"`
+	Via        string    `json:"via"`
+	Sched      []string  `json:"sched"`
+	Steps      []cnStep  `json:"steps"`
+	InOrder    bool      `json:"inorder"`
+	Goroutines int       `json:"goroutines"`
+	Dump       string    `json:"dump"`
+	Note       string    `json:"note"`
 }
 
 // diamGoroutines counts goroutines (other than the caller) that have a go-diameter frame.
